@@ -18,8 +18,11 @@ package main
 
 import (
 	"fmt"
+	"os"
+	"os/exec"
 	"sort"
 	"strings"
+	"time"
 
 	"github.com/jamespfennell/gtfs"
 	"github.com/jamespfennell/gtfs/extensions"
@@ -127,7 +130,11 @@ func c06MapOrderRealtime(c *Ctx) {
 // ---------------------------------------------------------------------------------------
 // histories
 
-func c06Feeds() [][]byte {
+func c06Feeds() [][]byte { return c06FeedsWith("20240310", "") }
+
+// c06FeedsWith builds the feed alphabet with the given start date and trip-id suffix (C18
+// salts both per execution so that anything cached by input content is cold in every schedule).
+func c06FeedsWith(startDate, idSuffix string) [][]byte {
 	ts := uint64(1700000000)
 	mk := func(ents ...*gtfsrt.FeedEntity) []byte {
 		m := newFeed(&ts)
@@ -135,7 +142,7 @@ func c06Feeds() [][]byte {
 		return marshalFeed(m)
 	}
 	nyctTU := func(id, trip, route string, assigned bool, stops ...string) *gtfsrt.FeedEntity {
-		td := &gtfsrt.TripDescriptor{TripId: sp(trip), RouteId: sp(route)}
+		td := &gtfsrt.TripDescriptor{TripId: sp(trip + idSuffix), RouteId: sp(route), StartDate: sp(startDate)}
 		proto.SetExtension(td, gtfsrt.E_NyctTripDescriptor, &gtfsrt.NyctTripDescriptor{TrainId: sp("train " + id), IsAssigned: &assigned, Direction: gtfsrt.NyctTripDescriptor_SOUTH.Enum()})
 		tu := &gtfsrt.TripUpdate{Trip: td}
 		for i, s := range stops {
@@ -276,6 +283,107 @@ func c06StaticHistory(c *Ctx) {
 	c.Relate("static-pure-function", string(lastBytes), gd)
 }
 
+// ---------------------------------------------------------------------------------------
+// process-level state: histories executed in pristine processes
+
+// Symbols of the fresh-process alphabet: the same calendar dates / start dates under
+// different zones, so that anything cached per process across calls shows.
+var c06FreshSymbols = []string{"static/New_York", "static/Kolkata", "rt/New_York", "rt/UTC", "rt/London"}
+
+func c06FreshInput(sym int) (static []byte, rt []byte, tz *time.Location) {
+	switch sym {
+	case 0, 1:
+		m := genStaticFeedN(&Ctx{}, false, baseCounts, nil, nil)
+		if sym == 1 {
+			m.t("agency.txt").set(0, "agency_timezone", "Asia/Kolkata")
+		}
+		return renderFeed(m, presentation{}), nil, nil
+	}
+	return nil, c06Feeds()[3], []*time.Location{zoneNY, time.UTC, zoneLondon}[sym-2]
+}
+
+const oneshotSep = "\n=====ONESHOT=====\n"
+
+// c06Oneshot runs the calls named by spec ("0,3,2") in this process and prints their dumps.
+func c06Oneshot(spec string) {
+	var out []string
+	for _, f := range strings.Split(spec, ",") {
+		sym := 0
+		fmt.Sscanf(f, "%d", &sym)
+		st, rt, tz := c06FreshInput(sym)
+		if st != nil {
+			r, err := gtfs.ParseStatic(st, gtfs.ParseStaticOptions{})
+			if err != nil {
+				out = append(out, "error: "+err.Error())
+			} else {
+				out = append(out, dumpStatic(r, staticDumpOpts{}))
+			}
+		} else {
+			r, err := gtfs.ParseRealtime(rt, &gtfs.ParseRealtimeOptions{Timezone: tz, Extension: nycttrips.Extension(nycttrips.ExtensionOpts{})})
+			if err != nil {
+				out = append(out, "error: "+err.Error())
+			} else {
+				out = append(out, dumpRealtime(r, rtDumpOpts{links: true}))
+			}
+		}
+	}
+	realStdout.WriteString(strings.Join(out, oneshotSep))
+}
+
+var oneshotCache = map[string][]string{}
+
+func runOneshot(spec string) []string {
+	if v, ok := oneshotCache[spec]; ok {
+		return v
+	}
+	exe, err := os.Executable()
+	if err != nil {
+		harnessBug("executable: %v", err)
+	}
+	cmd := exec.Command(exe, "--oneshot", spec)
+	cmd.Env = append(os.Environ(), "GOMAXPROCS=1")
+	b, err := cmd.Output()
+	if err != nil {
+		harnessBug("oneshot %s: %v", spec, err)
+	}
+	v := strings.Split(string(b), oneshotSep)
+	oneshotCache[spec] = v
+	return v
+}
+
+// c06FreshProcess: every history of <= 3 calls over the 5 symbols runs in a pristine process;
+// each call's dump must equal the dump of that call as the only call of another pristine
+// process. Fully replayable: no state of the exploring process is involved.
+func c06FreshProcess(c *Ctx) {
+	n := 1 + c.Free("history_length", 3)
+	var syms []string
+	var names []string
+	for i := 0; i < n; i++ {
+		k := c.Free(fmt.Sprintf("call[%d]", i), len(c06FreshSymbols))
+		syms = append(syms, fmt.Sprint(k))
+		names = append(names, c06FreshSymbols[k])
+	}
+	desc := "pristine process: " + strings.Join(names, " -> ")
+	c.Input(hash64(desc), n >= 2, func() string { return desc })
+	got := runOneshot(strings.Join(syms, ","))
+	c.Steps(n)
+	if len(got) != n {
+		c.Fail("process-state/crash", "%s: the process printed %d results for %d calls", desc, len(got), n)
+		return
+	}
+	c.Outcome(strings.Join(got, "|"))
+	for i := range syms {
+		want := runOneshot(syms[i])[0]
+		if got[i] != want {
+			c.Fail("process-state/"+classifyDiff(want, got[i]), "%s: call %d (%s) returns something else than as the first call of a process - state outlives a call\n%s", desc, i, names[i], diffLines(want, got[i]))
+			return
+		}
+	}
+	if n >= 2 {
+		c.Witness("history_in_pristine_process")
+	}
+}
+
 var _ = extensions.NoExtension
 var _ = sort.Strings
 
@@ -283,7 +391,7 @@ func init() {
 	register(&Check{
 		ID:    "C06",
 		Level: "model_checking",
-		Rule: "(1) every combination of iteration starts at every library map range (choice points owned through the runtime overlay) for a static archive with 3 services/3 shapes/3 trips/3 sibling stops and a realtime message with 3 id-bearing vehicles, 3 trips and an alert with 3 fall-back routes; (2) all call sequences of <= 3 (thorough <= 4) over 6 feeds on ONE shared options/extension object for each of 29 configurations (nil Extension, 4 nycttrips, 24 nyctalerts), and all sequences of <= 3 static parses over 3 archives x inherit option; (3) relation (bytes, configuration) -> dump over every parse of the run, across worker processes; " +
+		Rule: "(1) every combination of iteration starts at every library map range (choice points owned through the runtime overlay) for a static archive with 3 services/3 shapes/3 trips/3 sibling stops and a realtime message with 3 id-bearing vehicles, 3 trips and an alert with 3 fall-back routes; (2) all call sequences of <= 3 (thorough <= 4) over 6 feeds on ONE shared options/extension object for each of 29 configurations (nil Extension, 4 nycttrips, 24 nyctalerts), and all sequences of <= 3 static parses over 3 archives x inherit option; (3) relation (bytes, configuration) -> dump over every parse of the run, across worker processes; (4) all histories of <= 3 calls over {static archive in New_York / Kolkata, realtime feed under New_York / UTC / London} each executed in its own pristine process and compared call by call with single-call pristine processes; " +
 			"non-trivial = distinct histories of >= 2 calls or inputs with a >= 3-entry library map; oracle = differential (rotated vs. fixed order, reused vs. fresh object) with content and order compared",
 		Assumptions: []string{"library maps are single-bucket (<= 8 entries) in these inputs, so rotations are all achievable orders; uncontrolled_maps counts any exception", "process-level state (package variables) is exercised by running histories in 16 separate worker processes that must all agree"},
 		Scenarios: func(tier string) []*Scenario {
@@ -296,6 +404,7 @@ func init() {
 				{Name: "map-orders/realtime", Bound: -1, Run: c06MapOrderRealtime},
 				{Name: fmt.Sprintf("histories<=%d/realtime", n), Bound: -1, Run: c06History(n)},
 				{Name: "histories<=3/static", Bound: -1, Run: c06StaticHistory},
+				{Name: "histories<=3/pristine-processes", Bound: -1, Run: c06FreshProcess},
 			}
 		},
 	})
